@@ -190,8 +190,6 @@ func c05Run(c *Ctx) {
 	}
 	// pointer level: the real object graph against the heap model's sharing map (heap_share.go)
 	heapCloneGen(c, g, c.N(700))
-	// "for all nodes": deep ones (c05_deep.go)
-	c05DeepGen(c)
 	// "the same keys": key sets of equal size that are two segmentations of one token sequence (c05_keys.go)
 	for i := 0; i < c.N(400); i++ {
 		c.Tick()
@@ -207,6 +205,8 @@ func c05Run(c *Ctx) {
 			}
 		}
 	}
+	// "for all nodes": deep ones (c05_deep.go); last of the random streams
+	c05DeepGen(c)
 	if c.Thorough() && !c.searchMode {
 		all := enumNodes(4)
 		c.Note("exhaustive scope: %d nodes of size <= 4, %d ordered pairs", len(all), len(all)*len(all))
